@@ -22,10 +22,10 @@ NTS = {"i8": ("DFNT_INT8", 1), "i16": ("DFNT_INT16", 2), "i32": ("DFNT_INT32", 4
 
 def v3(t): return list(t) + [0 if len(t) else 0] * (3 - len(t))
 
-def inst(name, dims, nt, w1, r1, usestride=0, second=None, fillmode=1, userfill=1, unlim=0, bad=None):
+def inst(name, dims, nt, w1, r1, usestride=0, second=None, fillmode=1, userfill=1, unlim=0, bad=None, reopen=0):
     rank = len(dims)
     d = {"RANK": rank, "D0": dims[0], "D1": dims[1] if rank > 1 else 1, "D2": dims[2] if rank > 2 else 1, "NT": NTS[nt][0], "ES": NTS[nt][1],
-         "USESTRIDE": usestride, "FILLMODE": fillmode, "USERFILL": userfill, "UNLIM": unlim, "SECOND": 1 if second else 0, "BAD": 0, "MEMIO_DISK_SZ": 8192}
+         "USESTRIDE": usestride, "FILLMODE": fillmode, "USERFILL": userfill, "UNLIM": unlim, "SECOND": 1 if second else 0, "BAD": 0, "REOPEN": reopen, "MEMIO_DISK_SZ": 8192}
     def put(prefix, trip, default):
         for i in range(3):
             d["%s%d" % (prefix, i)] = trip[i] if i < len(trip) else default
